@@ -139,6 +139,14 @@ def rule_label_ops(ctx):
                         vs = set(ent.values()) - vs
                     if vs == {"Vacant"}:
                         in_entry = True
+        if not in_entry:
+            # `if self.map.contains_key(&label) { return; }` before the push
+            from ..prov import prov as _pv
+            from .grounded import inherited_conditions as _ic, _cond_trees as _ct
+
+            for c_, t_ in _ct(prog, _ic(prog, b, u.site.bb)):
+                if c_[0] == "call" and re.search(r"hash::map::HashMap::contains_key$", c_[1]) and t_ is False and fields["map"] and any(l[0] == "param" and l[3] and l[3][-1] == fields["map"][1] for l in [c_[2][0]] if isinstance(l, tuple)):
+                    in_entry = True
         r.check(in_entry, "%s.%s|push" % (owner, fld), "push-outside-entry", "label pushed only when the map entry is vacant (or_insert_with closure)", "a label is pushed outside `entry(..).or_insert_with`: inserting an existing label would create a second id", u.site.loc())
         # pushed value = Some(Label::new(len(labels), ..))
         ok_id = False
@@ -149,6 +157,14 @@ def rule_label_ops(ctx):
                         _, calls, _ = data_deps(b, oo.site.node["args"][0])
                         if any(callee_matches(callee_of(cs), r"^alloc::vec::Vec::len$") for cs in calls):
                             ok_id = True
+                        # ... or through a private getter of the store that returns that length
+                        from ..prov import prov as _pv2, inlining as _inl2
+                        from .grounded import _is_call as _isc
+
+                        with _inl2():
+                            for e_ in _pv2(prog, b, oo.site.node["args"][0]):
+                                if _isc(e_, r"Vec::len$", 1) and e_[2][0][0] == "param" and e_[2][0][3] and e_[2][0][3][-1] == fld:
+                                    ok_id = True
         r.check(ok_id, "%s.%s|push" % (owner, fld), "id-not-len", "the new label's id is the vector length at insertion", "the id given to a new label is not the current length of the label vector", u.site.loc())
     # Label::new call sites and Label aggregates
     new_sites = [(b, s) for b in prog.lib_bodies() for s in b.calls() if callee_is(callee_of(s), LABEL + "::new")]
@@ -171,6 +187,14 @@ def rule_label_ops(ctx):
         mo, mf, _ = fields["map"]
         allowed_m = {"init", "std::collections::hash::map::HashMap::entry", "std::collections::hash::map::HashMap::remove", "std::collections::hash::map::HashMap::shrink_to_fit", "std::collections::hash::map::HashMap::reserve"}
         for u in _muts(prog, mo, mf):
+            if u.op == "std::collections::hash::map::HashMap::insert":
+                # the non-entry form of insertion: only after `contains_key` said no, next to the push of the label
+                from .grounded import inherited_conditions as _ic2, _cond_trees as _ct2
+
+                guarded = any(c_[0] == "call" and re.search(r"hash::map::HashMap::contains_key$", c_[1]) and t_ is False for c_, t_ in _ct2(prog, _ic2(prog, u.site.body, u.site.bb)))
+                paired = any(p_.site.body is u.site.body and (u.site.body.dominates(p_.site, u.site) or u.site.body.dominates(u.site, p_.site)) for p_ in pushes)
+                r.check(guarded and paired, "%s.%s|%s" % (mo, mf, u.fn.path), "op=" + u.op, "insert of a label the map does not hold yet, next to the push of its slot", "the label map is written by `insert` %s" % ("without a `contains_key` test: an existing label gets a second id" if not guarded else "away from the push of the label's slot"), u.site.loc())
+                continue
             r.check(u.op in allowed_m, "%s.%s|%s" % (mo, mf, u.fn.path), "op=" + u.op, "%s in %s" % (u.op, u.fn.path), "forbidden operation on the label map: %s" % u.op, u.site.loc())
 
 
@@ -234,6 +258,14 @@ def rule_removed_counter(ctx):
                 _, ca, _ = data_deps(lenb, a)
                 if any(callee_matches(callee_of(c), r"^alloc::vec::Vec::len$") for c in ca) and fields["labels"][1] in self_fields_read(lenb, a) and self_fields_read(lenb, b2) == {cnt}:
                     ok = True
+        if not ok:
+            from ..prov import prov as _pv3, inlining as _inl3
+            from .splits import linear as _lin3
+            from .grounded import _is_call as _isc3
+
+            with _inl3():
+                vals = [_lin3(e_, lambda t: "L" if (_isc3(t, r"Vec::len$", 1) and t[2][0][0] == "param" and t[2][0][3] and t[2][0][3][-1] == fields["labels"][1]) else ("R" if (t[0] == "param" and t[2] == 1 and t[3] == (cnt,)) else None)) for e_ in _pv3(prog, lenb, {"l": 0, "p": []})]
+            ok = bool(vals) and all(v == {"L": 1, "R": -1} for v in vals)
         r.check(ok, owner + "::len", "shape", "len() = labels.len() - removed", "len() is not `labels.len() - removed counter`", lenb.loc())
 
 
@@ -759,6 +791,12 @@ def rule_counts(ctx):
                 cc = callee_of(c)
                 t = prog.body_for_callee(cc, mx) if cc else None
                 if t is not None and t.impl and t.impl.get("self_adt") == owner:
+                    # a private getter that reads the label vector alone is the label vector
+                    tf = set()
+                    for rs in [{"l": 0, "p": []}] + [sw.node["discr"] for sw in switch_sites(t)]:
+                        tf |= self_fields_read(t, rs)
+                    if str(t.vis or "").startswith("in:") and tf and tf <= {fld} and not any((callee_of(x) or {}).get("crate") == "crustabri" for x in t.calls()):
+                        continue
                     bad.append("calls %s" % t.path.rsplit("::", 1)[-1])
         r.check(not bad, mx.id, "max-id-source:%s" % sorted(set(bad)), "max_id is computed from the label vector only", "max_id depends on more than the label vector (%s): after removals the largest id handed out is no longer reported" % sorted(set(bad)), mx.loc())
     def delegates(path, want_re, what):
@@ -806,6 +844,10 @@ def rule_label_store_arithmetic(ctx):
         return atom
 
     n = 0
+    from ..prov import inlining
+
+    _inl = inlining()
+    _inl.__enter__()
 
     def judge_value(fn, tree, want, what, anchor):
         nonlocal n
@@ -923,13 +965,23 @@ def rule_label_store_arithmetic(ctx):
                 news = [t for t in subterms(e) if _is_call(t, r"Label::new$", 2)]
                 for t in news:
                     judge_value(nl, t[2][0], {"L": 1}, "id of the new label", nl.id + "|id")
-                    lens = [s for s in y.calls() if callee_decl(callee_of(s)) == "alloc::vec::Vec::len" and y.dominates(s, ps)]
-                    r.check(bool(lens), nl.id + "|id", "length-read-after-push", "the length is read before the push", "the id of the new label is computed from the length *after* the push", ps.loc())
+                    # the Label::new call and what its id argument is computed from
+                    srcs = []
+                    for s0 in y.calls():
+                        if callee_decl(callee_of(s0)).endswith("Label::new") or callee_decl(callee_of(s0)).endswith("Label::<T>::new"):
+                            for o in origins(y, s0.node["args"][0], transparent=()):
+                                if o.kind == "call" and o.site is not None:
+                                    srcs.append(o.site)
+                    if srcs:
+                        r.check(all(y.dominates(x, ps) for x in srcs), nl.id + "|id", "length-read-after-push", "the length is read before the push", "the id of the new label is computed from the length *after* the push", ps.loc())
+                    else:
+                        r.ok(nl.id + "|id", "NOT decided: where the id of the new label is read is not traced", ps.loc())
             if y is not nl:
                 for e in prov(prog, y, {"l": 0, "p": []}):
                     judge_value(nl, e, {"L": 1, 1: -1}, "position recorded in the map", nl.id + "|map")
                     late = [s for s in y.calls() if callee_decl(callee_of(s)) == "alloc::vec::Vec::len" and y.dominates(ps, s)]
                     r.check(bool(late), nl.id + "|map", "length-read-before-push", "the length is read after the push", "the position recorded in the map is L - 1 with L read *before* the push: the id of the previous label", ps.loc())
+    _inl.__exit__()
     r.floor(n, 3, "functions of the label store evaluated")
 
 
